@@ -88,8 +88,15 @@ def _ev(n, look, fn):
         if op is ast.Mult:
             return a * b
         if op is ast.Div:
+            if np.ndim(b) == 0 and abs(b) < 1e-9:
+                raise ZeroDivisionError('ill-conditioned division')   # not a well-defined value: callers reject it
             return a / b
         if op is ast.Pow:
+            # NumPy meaning: a negative real base with a fractional exponent is nan, not a complex number
+            if isinstance(a, (int, float)) and not isinstance(a, bool):
+                a = np.float64(a)
+            if np.ndim(a) == 0 and np.ndim(b) == 0 and abs(a) < 1e-9 and np.real(b) < 0:
+                raise ZeroDivisionError('zero to a negative power')
             return a ** b
         raise ValueError(f'unsupported operator {op.__name__}')
     if isinstance(n, ast.UnaryOp):
